@@ -64,5 +64,10 @@ def standins(tier, seed):
                  dict(p=4, q=1, random=2, blade_built=True, ops=['add'], variants=bb)]
     names = [{'name': 'typeid', 'bound': 'generated function names pairwise distinct across all operators and all ordered key tuples (d<=2 exhaustive, d=3 up to length 3): with a wrapper set functions are called by name',
               'job': {'kind': 'typeid', 'module': 'standins.jobs2', 'configs': [dict(p=1), dict(p=2), dict(p=2, q=0, r=1, maxlen=2)]}}]
+    groups = [[(1, -1), (-1, 1)], [(1, 0), (0, 1)], [(1, 1, -1), (-1, 1, 1), (1, -1, 1)]]
+    if tier != 'quick':
+        groups += [[(1, 1, 0), (0, 1, 1)], [(1, -1, 0), (0, -1, 1), (-1, 0, 1)], [(1, 1, 1, -1), (-1, 1, 1, 1)]]
+    names.append({'name': 'wrapper_twins', 'bound': 'signatures with equal (p,q,r) and different generator order built one after the other in one process with one shared pass-through wrapper object; 22 operators x 6 key-pattern pairs, fixed Fraction operands; compared with the same algebra without a wrapper',
+                  'job': {'kind': 'wrapper_twins', 'module': 'standins.jobs7', 'groups': groups}})
     return names + [{'name': f'options#{i}', 'bound': 'grade-block operand pairs per signature x the product (sampled in quick) of cse x graded x symbol class x wrapper; Fraction values; every operator compared with the default-options algebra',
              'job': {'kind': 'options', 'module': 'standins.jobs5', 'ops': ops, 'configs': [c], 'seed': seed + i}} for i, c in enumerate(cfgs)]
